@@ -422,7 +422,7 @@ def run_step_condfail(case):
         enc = implrun.exn_enc(e)
         if enc[0] != 2:
             return [0]          # host errors are C18's business
-        if enc[:2] == [2, 6]:
+        if enc[:2] == [2, 6] and not case.get('strict'):
             return [0]          # UNDEFINED words: the Undefined Instruction exception does not depend on the condition
         return [1, 9] + enc[:3]
     after = dump(arm)
@@ -432,7 +432,7 @@ def run_step_condfail(case):
     icpsr = names.index('cpsr')
     itmask = (0x3F << 10) | (3 << 25)
     ipc0 = t['rnames'].index('PC')
-    if ((sa['sys'][icpsr] & 0x1F) == 0b11011 and sa['sys'][names.index('spsr_und')] == sb['sys'][icpsr]
+    if (not case.get('strict') and (sa['sys'][icpsr] & 0x1F) == 0b11011 and sa['sys'][names.index('spsr_und')] == sb['sys'][icpsr]
             and sa['R'][ipc0] != (sb['R'][ipc0] + case['length']) % 2 ** 32):
         return [0]              # the Undefined Instruction exception was taken: UNDEFINED and UNPREDICTABLE words (whose
                                 # behaviour is open) may do so whatever the condition
